@@ -19,8 +19,8 @@ class Crash(BaseException):
 
 class Inode(object):
     def __init__(self):
-        self.cache = ""
-        self.durable = ""
+        self.cache = b""           # bytes, as on a real disk: a crash can cut inside a multi-byte character
+        self.durable = b""
         self.entry_durable = False     # directory entry made durable (by an fsync of the file)
 
 
@@ -41,6 +41,8 @@ class SimFile(object):
             raise ValueError("I/O operation on closed file.")
         if "a" not in self.mode and "w" not in self.mode:
             raise OSError("not writable")
+        if not isinstance(s, str):
+            raise TypeError("write() argument must be str, not %s" % type(s).__name__)
         self.buf += s
         if len(self.buf) >= BUFSIZE:
             self._flush()
@@ -49,7 +51,7 @@ class SimFile(object):
     def _flush(self):
         if self.buf:
             ino = self.fs.files[self.name]
-            ino.cache += self.buf
+            ino.cache += self.buf.encode("utf-8")
             self.buf = ""
 
     def flush(self):
@@ -74,11 +76,11 @@ class SimFile(object):
         self.fs._call("read", self.name)
         data = self.fs.files[self.name].cache[self._pos:]
         self._pos += len(data)
-        return data
+        return data.decode("utf-8")          # text mode: raises UnicodeDecodeError like the real thing
 
     def __iter__(self):
         self.fs._call("read", self.name)
-        data = self.fs.files[self.name].cache
+        data = self.fs.files[self.name].cache.decode("utf-8")
         for line in data.splitlines(True):
             yield line
 
@@ -107,7 +109,7 @@ class _Path(object):
         p = self.fs.norm(p)
         if p not in self.fs.files:
             raise FileNotFoundError(p)
-        return len(self.fs.files[p].cache.encode("utf-8"))
+        return len(self.fs.files[p].cache)
 
     def isdir(self, p):
         return self.fs.norm(p) in self.fs.dirs
@@ -213,13 +215,13 @@ class SimFS(object):
             if path not in self.files:
                 self.files[path] = Inode()
             elif "w" in mode:
-                self.files[path].cache = ""
+                self.files[path].cache = b""
         return SimFile(self, path, mode)
 
     def on_fsync(self, path, ino):
-        lines = ino.durable.split("\n")
+        lines = ino.durable.split(b"\n")
         if len(lines) >= 2:
-            self.acked.append((path, lines[-2]))
+            self.acked.append((path, lines[-2].decode("utf-8", "replace")))
 
     # ---- crash / exit semantics
     def arm(self, after_calls, mode, keep):
@@ -236,7 +238,7 @@ class SimFS(object):
 
     def crash(self, mode="kill", keep=None, lose_unsynced_files=False):
         """kill : the process dies; user-space buffers are lost, the page cache survives.
-        power: additionally only `keep` characters of each file's un-synced tail survive (torn
+        power: additionally only `keep` bytes of each file's un-synced tail survive (torn
         write); a file whose directory entry was never synced may disappear entirely."""
         for f in list(self.open_files.values()):
             f.closed = True
@@ -244,7 +246,7 @@ class SimFS(object):
         if mode == "power":
             for path in sorted(self.files):
                 ino = self.files[path]
-                tail = ino.cache[len(ino.durable):] if ino.cache.startswith(ino.durable) else ""
+                tail = ino.cache[len(ino.durable):] if ino.cache.startswith(ino.durable) else b""
                 k = len(tail) if keep is None else max(0, min(len(tail), keep))
                 ino.cache = ino.durable + tail[:k]
                 if lose_unsynced_files and not ino.entry_durable and not ino.durable:
@@ -252,7 +254,7 @@ class SimFS(object):
         snap = {}
         for path in sorted(self.files):
             c = self.files[path].cache
-            snap[path] = (len(c), c.endswith("\n") or c == "")
+            snap[path] = (len(c), c.endswith(b"\n") or c == b"")
         self.crashes.append(snap)
 
     def listing(self, d):
@@ -260,4 +262,5 @@ class SimFS(object):
         return sorted(posixpath.basename(f) for f in self.files if posixpath.dirname(f) == d)
 
     def content(self, path):
+        """File content as bytes."""
         return self.files[self.norm(path)].cache
